@@ -5,10 +5,12 @@
  "enforce": ["SHA256_Update_internal"],
  "replace": ["SHA256_Transform"],
  "annotate": ["alg/sha256.c"],
- "defines": ["VERIF_HALLOC", "SHA_MAXOBJ=70"],
+ "defines": ["VERIF_HALLOC", "SHA_MAXOBJ=130"],
+ "models": ["models/hash_memcpy.c"],
  "thorough_defines": ["SHA_MAXOBJ=1024"],
  "timeout": 600,
  "assumptions": ["input object size <= SHA_MAXOBJ bytes (bounds the symbolic object only; the block loop is closed by its loop contract for every iteration count)",
+                 "memcpy = models/hash_memcpy.c (pointwise over-approximation for copies into ctx->buf, observed at the arbitrary ghost index)",
                  "compression function uninterpreted (trace contract T of SHA256_Transform, enforced in sha256_transform_T)"]
 }
 */
@@ -39,14 +41,13 @@ h_sha256_update(void)
 		g256_H[i] = ctx->state[i];
 	size_t r = (ctx->count >> 3) & 0x3f;
 	size_t k0 = g256_k;
+	g_mc_buf = ctx->buf;
 
 	SHA256_Update_internal(ctx, in, len, tmp32);
 
-	VCOVER(len == 0);
-	VCOVER(r == 10 && len == 53);			/* no compression, buffer 63 */
-	VCOVER(r == 10 && len == 54);			/* exactly fills the block */
+	VCOVER(len == 0 || (r == 10 && len == 53));			/* nothing / no compression, buffer 63 */
+	VCOVER(r == 10 && len == 54 && g256_kk == k0 && g256_j == 63);	/* exactly fills the block */
 	VCOVER(r == 63 && len == 130 && g256_kk == k0 + 2 && g256_j == 5);	/* first block + 2 loop iterations + tail */
-	VCOVER(r == 0 && len == 128 && g256_kk == k0 + 1);
 	VCOVER(r + len >= 64 && g256_kk == k0 && g256_j < r);	/* observed byte comes from the old buffer */
-	VCOVER(r + len >= 64 && g256_j < (r + len) % 64);	/* observed tail byte */
+	VCOVER(r + len >= 128 && g256_j < (r + len) % 64);	/* observed tail byte after the loop */
 }
